@@ -39,16 +39,24 @@ func newTimedQueue(ttl time.Duration, onPop func(peer.ID)) *timedQueue {
 // releaseExpired will release all expired items
 func (q *timedQueue) releaseExpired() {
 	q.Lock()
-	defer q.Unlock()
-	q.releaseUnsafe()
+	expired := q.releaseUnsafe()
+	q.Unlock()
+
+	// onPop is called only after the queue lock is released: the callback takes locks of its own
+	// (pool.afterCooldown locks the pool) while pool.putOnCooldown pushes to the queue with the pool
+	// locked. Calling back with the queue locked gives two opposite lock orders, i.e. a deadlock.
+	for _, peerID := range expired {
+		q.onPop(peerID)
+	}
 }
 
-func (q *timedQueue) releaseUnsafe() {
+// releaseUnsafe removes all expired items from the queue and returns them in order.
+func (q *timedQueue) releaseUnsafe() []peer.ID {
 	if len(q.items) == 0 {
-		return
+		return nil
 	}
 
-	var i int
+	var expired []peer.ID
 	for _, next := range q.items {
 		timeIn := q.clock.Since(next.createdAt)
 		if timeIn < q.ttl {
@@ -59,14 +67,14 @@ func (q *timedQueue) releaseUnsafe() {
 		}
 
 		// item is expired
-		q.onPop(next.ID)
-		i++
+		expired = append(expired, next.ID)
 	}
 
-	if i > 0 {
+	if i := len(expired); i > 0 {
 		copy(q.items, q.items[i:])
 		q.items = q.items[:len(q.items)-i]
 	}
+	return expired
 }
 
 func (q *timedQueue) push(peerID peer.ID) {
